@@ -13,7 +13,7 @@ from vf.run import SubCheck
 
 from gbasis.integrals.electron_repulsion import ElectronRepulsionIntegral
 
-RULE = ("(reorder) Hypothesis draws bases of 2-4 generalized shells with mixed types (ERI: 2-3 shells, l <= 2, exponents 0.1-10) "
+RULE = ("(reorder) Hypothesis draws bases of 2-3 (thorough: 2-4) generalized shells with mixed types (ERI: 2-3 shells, l <= 2, exponents 0.1-10) "
         "and an environment; EVERY permutation of the shells is enumerated and every public quantity must change only by the "
         "corresponding block permutation of its basis indices (density matrix permuted for density-type functions); matrices of "
         "real symmetric operators must be symmetric, momentum-type ones Hermitian, the repulsion array eight-fold symmetric.  "
